@@ -5,6 +5,7 @@ The rule is deliberately lenient about *what may change a progress variable* (an
 on the object, any opaque call for heap state) so that it only reports cycles on which nothing
 the exit conditions read can change — i.e. loops that, once entered with the conditions in the
 'stay' state, provably never leave."""
+import re
 from . import cfg as C
 from . import ast as A
 
@@ -140,6 +141,182 @@ def shallow_call_effect(x, facts):
 HEAPY = ('m', 'g', 'this')
 
 
+def _writes_in_loop(fn, body, d):
+    """right-hand sides of the writes to local d inside the loop body; None stands for a write that is not a plain assignment of an expression (++, +=, out-parameter, …)"""
+    out = []
+    for b in body:
+        for n in stmt_nodes_of_block(fn, b):
+            k = n['k']
+            if k == 'BinaryOperator' and n.get('op') == '=' and A.strip_casts(n['ch'][0])['k'] == 'DeclRefExpr' and A.strip_casts(n['ch'][0]).get('d') == d:
+                out.append(n['ch'][1])
+            elif k == 'VarDecl' and n.get('d') == d:
+                out.append(n['ch'][0] if n['ch'] else None)
+            elif k in ('CompoundAssignOperator',) and A.strip_casts(n['ch'][0]).get('d') == d:
+                out.append(None)
+            elif k == 'UnaryOperator' and (n.get('op', '').startswith('pre') or n.get('op', '').startswith('post')) and A.strip_casts(n['ch'][0]).get('d') == d:
+                out.append(None)
+            elif k in A.CALL_KINDS:
+                for a in n.args():
+                    a0 = A.strip_casts(a)
+                    if a0['k'] == 'UnaryOperator' and a0.get('op') == '&' and A.strip_casts(a0['ch'][0]).get('d') == d:
+                        out.append(None)
+                    elif a0['k'] == 'DeclRefExpr' and a0.get('d') == d and 'm' in ''.join(A.param_kinds(n) or []):
+                        # passed where a mutable reference may be taken: be conservative
+                        kinds = A.param_kinds(n)
+                        idx = n.args().index(a)
+                        if idx < len(kinds) and kinds[idx] in ('mref', 'mptr', 'mptr?'):
+                            out.append(None)
+    return out
+
+
+def _pure_in_locals(fn, e):
+    """the value of e depends only on locals/parameters, literals, arithmetic, and const member calls on a receiver that is a const-reference (or by-value) parameter or a const local"""
+    for x in e.walk():
+        k = x['k']
+        if k in ('DeclRefExpr', 'IntegerLiteral', 'CharacterLiteral', 'CXXBoolLiteralExpr', 'FloatingLiteral', 'ParenExpr', 'ConditionalOperator', 'StringLiteral') or k.endswith('CastExpr'):
+            if k == 'DeclRefExpr' and x.get('dk') not in (None, 'Var', 'ParmVar', 'EnumConstant'):
+                return False
+            continue
+        if k == 'BinaryOperator' and x.get('op') not in A.ASSIGN_OPS:
+            continue
+        if k == 'UnaryOperator' and x.get('op') in ('-', '+', '!', '~'):
+            continue
+        if k == 'MemberExpr' and x.parent is not None and x.parent['k'] == 'CXXMemberCallExpr' and x.parent['ch'] and x.parent['ch'][0] is x:
+            continue          # the callee expression of a member call (judged with the call)
+        if k == 'CXXMemberCallExpr' and x.get('cm') and not x.get('virt'):
+            rc = x.receiver()
+            r0 = A.strip_casts(rc) if rc is not None else None
+            if r0 is not None and r0['k'] == 'DeclRefExpr' and r0.get('dk') in ('ParmVar', 'Var', None) and r0.type().startswith('const '):
+                continue
+            return False
+        return False
+    return True
+
+
+def _pure_value(fn, e):
+    """the value of e is a function of locals/parameters only: literals, operators, const member calls on locals / parameters, construction of value objects from such values"""
+    for x in e.walk():
+        k = x['k']
+        if k in ('IntegerLiteral', 'CharacterLiteral', 'CXXBoolLiteralExpr', 'FloatingLiteral', 'StringLiteral', 'ParenExpr', 'ConditionalOperator', 'GNUNullExpr', 'CXXNullPtrLiteralExpr',
+                 'MaterializeTemporaryExpr', 'CXXBindTemporaryExpr', 'ExprWithCleanups', 'CXXDefaultArgExpr') or k.endswith('CastExpr'):
+            continue
+        if k == 'DeclRefExpr':
+            if x.get('dk') in (None, 'Var', 'ParmVar', 'EnumConstant'):
+                continue
+            if x.get('dk') in ('CXXMethod', 'Function') and x.parent is not None and x.parent.is_call():
+                continue
+            return False
+        if k == 'BinaryOperator' and x.get('op') not in A.ASSIGN_OPS:
+            continue
+        if k == 'UnaryOperator' and x.get('op') in ('-', '+', '!', '~'):
+            continue
+        if k == 'MemberExpr' and x.parent is not None and x.parent['k'] == 'CXXMemberCallExpr' and x.parent['ch'] and x.parent['ch'][0] is x:
+            continue
+        if k in ('CXXMemberCallExpr', 'CXXOperatorCallExpr') and x.get('cm') and not x.get('virt'):
+            rc = x.receiver() if k == 'CXXMemberCallExpr' else (x['ch'][1] if len(x['ch']) > 1 else None)
+            r0 = A.strip_casts(rc) if rc is not None else None
+            if r0 is not None and r0['k'] == 'DeclRefExpr' and r0.get('dk') in ('ParmVar', 'Var', None):
+                continue
+            return False
+        if k in ('CXXConstructExpr', 'CXXTemporaryObjectExpr', 'CXXFunctionalCastExpr') and re.search(r'^muscle::(String|Point|Rect)::', x.get('q') or 'muscle::String::'):
+            continue
+        return False
+    return True
+
+
+def _idem_effects(fn, b, facts):
+    """effects of block b as a list of (decl id of the local assigned, rhs node) when every effect of the block is an assignment of a pure value to a local; None if the block can do anything else"""
+    cache = getattr(fn, '_idem', None)
+    if cache is None:
+        cache = fn._idem = {}
+    if b in cache:
+        return cache[b]
+    out = []
+    for n in stmt_nodes_of_block(fn, b):
+        k = n['k']
+        if k == 'BinaryOperator' and n.get('op') == '=':
+            l = A.strip_casts(n['ch'][0])
+            if l['k'] == 'DeclRefExpr' and l.get('dk') in (None, 'Var') and l.get('d') is not None and not l.type().rstrip().endswith('&') and _pure_value(fn, n['ch'][1]):
+                out.append((l['d'], n['ch'][1]))
+                continue
+            out = None
+            break
+        if k in ('BinaryOperator',) and n.get('op') not in A.ASSIGN_OPS:
+            continue
+        if k == 'CompoundAssignOperator' or (k == 'UnaryOperator' and (n.get('op', '').startswith('pre') or n.get('op', '').startswith('post'))):
+            out = None
+            break
+        if k == 'VarDecl':
+            t = fn.types[n['t']] if n.get('t') is not None and n['t'] >= 0 else ''
+            if t.rstrip().endswith(('&', '*')) and n['ch'] and not _pure_value(fn, n['ch'][0]):
+                out = None
+                break
+            if n['ch'] and not _pure_value(fn, n['ch'][0]):
+                out = None
+                break
+            out.append((n.get('d'), n['ch'][0] if n['ch'] else None))
+            continue
+        if k == 'CXXOperatorCallExpr' and (n.get('q') or '').endswith('::operator=') and len(n['ch']) >= 3:
+            l = A.strip_casts(n['ch'][1])
+            if l['k'] == 'DeclRefExpr' and l.get('dk') in (None, 'Var') and l.get('d') is not None and not l.type().rstrip().endswith(('&', '*')) and _pure_value(fn, n['ch'][2]) \
+                    and re.search(r'^muscle::String::', n.get('q') or ''):
+                out.append((l['d'], n['ch'][2]))
+                continue
+            out = None
+            break
+        if k in A.CALL_KINDS:
+            if _pure_value(fn, n):
+                continue
+            out = None
+            break
+        if k in ('CXXNewExpr', 'CXXDeleteExpr', 'ReturnStmt', 'CXXThrowExpr'):
+            out = None
+            break
+    cache[b] = out
+    return out
+
+
+def find_idempotent_cycle(fn, facts, header, body, limit=3000):
+    """a cycle header -> header inside the loop all of whose effects are assignments x_i = E_i of pure values to locals, where no E_i reads an x_j that is assigned at or after position i
+    on the cycle (so nothing is carried from one round to the next).  -> (blocks, names of the locals recomputed) or None"""
+    ok_blocks = set(b for b in body if _idem_effects(fn, b, facts) is not None)
+    if header not in ok_blocks:
+        return None
+    count = [0]
+    found = [None]
+
+    def check(path):
+        asg = []
+        for b in path:
+            asg.extend(_idem_effects(fn, b, facts))
+        if not asg:
+            return None        # a cycle without any effect is the business of find_cycle (exit-condition inputs), not of this test
+        for i, (d, e) in enumerate(asg):
+            later = set(dd for (dd, _) in asg[i:])
+            if e is not None and any(x['k'] == 'DeclRefExpr' and x.get('d') in later for x in e.walk()):
+                return None
+        return sorted(set(local_name(fn, d) or str(d) for (d, _) in asg))
+
+    def rec(b, path, seen):
+        if found[0] is not None or count[0] > limit:
+            return
+        for s_ in fn.blocks[b].succ:
+            if s_ is None or s_ < 0 or s_ not in body:
+                continue
+            if s_ == header:
+                count[0] += 1
+                names = check(path)
+                if names:
+                    found[0] = (list(path), names)
+                    return
+                continue
+            if s_ in seen or s_ not in ok_blocks:
+                continue
+            rec(s_, path + [s_], seen | set([s_]))
+    rec(header, [header], set([header]))
+    return found[0]
+
+
 def analyse_function(fn, facts):
     """yields dicts describing each loop: header line, exit conditions, verdict"""
     out = []
@@ -182,6 +359,30 @@ def analyse_function(fn, facts):
                 t = local_type(fn, l[1])
                 if ('*' in t) or ('&' in t) or not A.is_integral_type(t):
                     ptr_inputs.add(l)
+        # derived inputs: a scalar local that the loop only ever recomputes as a pure function of other locals (x = s.IndexOf(c, y + 1), s a const reference) makes no progress by
+        # itself — recomputing it from unchanged arguments gives the same value.  Such an input is replaced by the locals it is computed from: progress must come from one of THOSE.
+        derived = {}
+        for _round in range(3):
+            changed_ = False
+            for l in sorted(inputs, key=str):
+                if l[0] != 'v' or l in derived or not A.is_integral_type(local_type(fn, l[1]).replace('const ', '').strip() or 'x'):
+                    continue
+                ws = _writes_in_loop(fn, body, l[1])
+                if not ws or not all(w is not None and _pure_in_locals(fn, w) for w in ws):
+                    continue
+                srcs = set()
+                for w in ws:
+                    srcs |= set(r for r in A.reads(w) if r[0] == 'v' and r != l)
+                if not srcs:
+                    continue
+                derived[l] = srcs
+                inputs = (inputs - set([l])) | srcs
+                changed_ = True
+            if not changed_:
+                break
+        if derived:
+            rec['inputs'] = sorted(map(str, inputs))
+            rec['derived'] = dict((str(k), sorted(map(str, v))) for k, v in derived.items())
         # blocking blocks: blocks of the loop in which progress may happen
         blocking = set()
         for b in body:
@@ -201,6 +402,15 @@ def analyse_function(fn, facts):
             rec['verdict'] = 'no-progress'
             rec['why'] = 'cycle through blocks %s changes none of the exit-condition inputs %s' % (free_cycle, rec['inputs'])
             rec['lines'] = sorted(set(block_lines(fn, free_cycle)))
+            out.append(rec)
+            continue
+        # a cycle that only RE-computes locals from values it does not change repeats itself for ever once it has been taken (the state after one round is a fixpoint of the round and the
+        # branch decisions are functions of that state)
+        idem = find_idempotent_cycle(fn, facts, header, body)
+        if idem:
+            rec['verdict'] = 'no-progress'
+            rec['why'] = 'cycle through blocks %s only recomputes %s from values that the cycle itself does not change: once taken it repeats for ever' % (idem[0], idem[1])
+            rec['lines'] = sorted(set(block_lines(fn, idem[0])))
             out.append(rec)
             continue
         # cursor consistency
